@@ -183,6 +183,29 @@ pub fn generate(rng: &mut Rng, thorough: bool) -> Vec<String> {
                 let m = mutate(rng, &s);
                 v.push(format!("p_{ty} {}", hex(m.as_bytes())));
             }
+            // ZonedDateTime::from_str / RelativeTo::try_from_str: date-time strings whose zone is an offset or UTC
+            if matches!(ty, "datetime" | "instant" | "date") && rng.chance(1, 2) {
+                // give the string a zone of the covered kind (or leave it as it is)
+                let z = match rng.below(6) {
+                    0 => s.clone(),
+                    1 => format!("{}[UTC]", s.split('[').next().unwrap_or("")),
+                    2 => format!("{}[!UTC][u-ca=iso8601]", s.split('[').next().unwrap_or("")),
+                    3 => format!("{}[{}]", s.split('[').next().unwrap_or(""), rng.pick(&["+01:00", "-08:00", "+05:30", "-00:45", "+14:00", "-12", "+0530", "+00:00"])),
+                    4 => format!("{}[{}][u-ca={}]", s.split('[').next().unwrap_or(""), rng.pick(&["+01:00", "-03:30", "UTC"]), rng.pick(&["iso8601", "gregory", "hebrew", "notacal"])),
+                    _ => format!("{}[-03:30]", s.split('[').next().unwrap_or("")),
+                };
+                let z = if rng.chance(1, 5) { mutate(rng, &z) } else { z };
+                v.push(format!("p_zdt {} {} {}", hex(z.as_bytes()), rng.pick(&["compatible", "earlier", "later", "reject"]), rng.pick(&["use", "prefer", "ignore", "reject"])));
+                v.push(format!("p_rel {}", hex(z.as_bytes())));
+            }
+            // Calendar::from_str reads the calendar annotation of an ISO string of any type, else an identifier
+            if matches!(ty, "date" | "datetime" | "time" | "yearmonth" | "monthday" | "tz") && rng.chance(1, 3) {
+                v.push(format!("cal_id {}", hex(s.as_bytes())));
+                if rng.chance(1, 3) {
+                    let m = mutate(rng, &s);
+                    v.push(format!("cal_id {}", hex(m.as_bytes())));
+                }
+            }
             // every parser also sees the other types' strings
             if rng.chance(1, 4) {
                 let other = *rng.pick(&TYPES);
@@ -225,6 +248,20 @@ fn cal(c: &temporal_rs::Calendar) -> &'static str {
     c.identifier()
 }
 
+/// Whether the first bracketed group of a string is an offset or `UTC` (the zones the specification side covers
+/// without zone data); strings without any bracket are covered too.
+fn covered_zone(s: &str) -> bool {
+    match s.find('[') {
+        None => true,
+        Some(k) => {
+            let rest = &s[k + 1..];
+            let rest = rest.strip_prefix('!').unwrap_or(rest);
+            let body = rest.split(']').next().unwrap_or("");
+            body.starts_with(['+', '-', '\u{2212}']) || body == "UTC"
+        }
+    }
+}
+
 pub fn eval(t: &[&str]) -> Option<String> {
     let bytes = unhex(t[1]);
     let Ok(s) = std::str::from_utf8(&bytes) else { return Some("err range".into()) };
@@ -246,6 +283,22 @@ pub fn eval(t: &[&str]) -> Option<String> {
             temporal_rs::TimeZone::IanaIdentifier(n) => format!("name {}", hex(n.as_bytes())),
             temporal_rs::TimeZone::UtcOffset(_) => format!("offset {}", z.identifier().unwrap_or_default()),
         }),
+        "p_zdt" => {
+            if !covered_zone(s) { return Some("skip".into()); }
+            let p = temporal_rs::tzdb::FsTzdbProvider::default();
+            render(
+                temporal_rs::ZonedDateTime::from_str_with_provider(s, super::zone::disamb(t[2]), super::zone::offopt(t[3]), &p),
+                |z| format!("{} {}", z.epoch_nanoseconds().as_i128(), cal(z.calendar())),
+            )
+        }
+        "p_rel" => {
+            if !covered_zone(s) { return Some("skip".into()); }
+            let p = temporal_rs::tzdb::FsTzdbProvider::default();
+            render(temporal_rs::options::RelativeTo::try_from_str_with_provider(s, &p), |r| match r {
+                temporal_rs::options::RelativeTo::PlainDate(d) => format!("plain {} {} {} {}", d.iso_year(), d.iso_month(), d.iso_day(), cal(d.calendar())),
+                temporal_rs::options::RelativeTo::ZonedDateTime(z) => format!("zoned {} {}", z.epoch_nanoseconds().as_i128(), cal(z.calendar())),
+            })
+        }
         "p_monthcode" => render(MonthCode::from_str(s), |m| m.as_str().to_string()),
         _ => return None,
     })
